@@ -9,13 +9,15 @@
     The invariant is a token discipline: every task that the parser's tree shows as reachable and active has
     exactly one token - a valid delivery under way, a registered run, or a queued completion event - or is
     recorded running with no run (awaiting the watchdog). *)
-From Coq Require Import List ZArith Bool Lia.
+From Coq Require Import List ZArith Bool Lia Permutation.
 From FF Require Import Engine EngineFacts.
 Import ListNotations.
 Local Open Scope Z_scope.
 
 Definition evfor (s : eng) (t : Z) : Prop := exists st, In (t, st) (evq s).
-Definition inpend (s : eng) (t : Z) : Prop := exists sn, In (t, sn) (pend s).
+(** deliveries not yet accepted by the executor: still with the pusher, or on their way *)
+Definition dl (s : eng) : list (Z * est) := pushq s ++ pend s.
+Definition inpend (s : eng) (t : Z) : Prop := exists sn, In (t, sn) (dl s).
 
 Lemma exec_active s : exec s = true -> active s = true.
 Proof. destruct s; cbn; congruence. Qed.
@@ -63,6 +65,16 @@ Proof.
   - apply IH; [exact Hz|exact H2|]. intros a Ha1 Ha2. apply (Hd a); [right; exact Ha1|exact Ha2].
 Qed.
 
+Lemma remove1_perm p l l' : remove1 p l = Some l' -> Permutation l (p :: l').
+Proof.
+  revert l'. induction l as [|y r IH]; cbn; intros l' H; [discriminate|].
+  destruct (Z.eqb (fst y) (fst p) && est_eqb (snd y) (snd p)) eqn:E.
+  - inv H. apply andb_true_iff in E. destruct E as (E1 & E2). apply Z.eqb_eq in E1. apply est_eqb_eq in E2.
+    destruct y, p; cbn in *; subst. apply Permutation_refl.
+  - destruct (remove1 p r) as [r'|] eqn:E'; [|discriminate]. inv H.
+    eapply Permutation_trans; [apply perm_skip; apply IH; reflexivity|apply perm_swap].
+Qed.
+
 Section Settle.
   Variable tasks : list Z.
   Variable deps : Z -> list Z.
@@ -92,53 +104,71 @@ Section Settle.
   Lemma not_self_dep t : ~ In t (deps t).
   Proof. intros H. pose proof (Hrank t t H). lia. Qed.
 
-  Lemma verdict_running f : verdict_of tasks deps f = VRunning <-> exists t, In t tasks /\ pdone f t = true /\ active (f t) = true.
+  Lemma verdict_running pb f : verdict_of tasks deps pb f = VRunning <-> exists t, In t tasks /\ pdone f t = true /\ active (f t) = true.
   Proof.
     unfold verdict_of. split.
     - destruct (existsb (fun t => pdone f t && active (f t)) tasks) eqn:E.
       + intros _. apply existsb_exists in E. destruct E as (t & Hin & Ht). apply andb_true_iff in Ht. exists t. tauto.
-      + match goal with |- (if ?b then _ else _) = _ -> _ => destruct b end; intros H; discriminate H.
+      + cbv zeta. destruct (existsb (fun t => pdone f t && est_eqb (f t) SFailed) tasks);
+          destruct (existsb (fun t => pdone f t && est_eqb (f t) SBlocked) tasks); destruct pb; cbn; intros H; discriminate H.
     - intros (t & Hin & Hp & Ha).
       assert (E : existsb (fun t => pdone f t && active (f t)) tasks = true).
       { apply existsb_exists. exists t. split; [exact Hin|]. rewrite Hp, Ha. reflexivity. }
       rewrite E. reflexivity.
   Qed.
 
-  Lemma verdict_failed f : verdict_of tasks deps f = VFailed -> exists t, In t tasks /\ pdone f t = true /\ f t = SFailed.
+  Lemma verdict_failed pb f : verdict_of tasks deps pb f = VFailed -> exists t, In t tasks /\ pdone f t = true /\ f t = SFailed.
   Proof.
-    unfold verdict_of. destruct (existsb (fun t => pdone f t && active (f t)) tasks); [discriminate|].
-    destruct (existsb (fun t => pdone f t && est_eqb (f t) SFailed) tasks) eqn:E; [|discriminate].
-    intros _. apply existsb_exists in E. destruct E as (t & Hin & Ht). apply andb_true_iff in Ht. destruct Ht as (A & B).
-    apply est_eqb_eq in B. exists t. tauto.
+    unfold verdict_of. destruct (existsb (fun t => pdone f t && active (f t)) tasks); [discriminate|]. cbv zeta.
+    destruct (existsb (fun t => pdone f t && est_eqb (f t) SFailed) tasks) eqn:E.
+    - intros _. apply existsb_exists in E. destruct E as (t & Hin & Ht). apply andb_true_iff in Ht. destruct Ht as (A & B).
+      apply est_eqb_eq in B. exists t. tauto.
+    - destruct (existsb (fun t => pdone f t && est_eqb (f t) SBlocked) tasks); destruct pb; cbn; intros H; discriminate H.
   Qed.
 
-  Lemma verdict_success f : verdict_of tasks deps f = VSuccess -> forall t, In t tasks -> f t = SSuccess.
+  Lemma verdict_blocked pb f : verdict_of tasks deps pb f = VBlocked -> exists t, In t tasks /\ pdone f t = true /\ f t = SBlocked.
   Proof.
-    unfold verdict_of. destruct (existsb (fun t => pdone f t && active (f t)) tasks) eqn:E1; [discriminate|].
-    destruct (existsb (fun t => pdone f t && est_eqb (f t) SFailed) tasks) eqn:E2; [discriminate|]. intros _.
-    assert (H : forall t, In t tasks -> pdone f t = true -> f t = SSuccess).
-    { intros t Hin Hp.
-      assert (A : active (f t) = false).
-      { destruct (active (f t)) eqn:Ea; [|reflexivity]. exfalso.
-        assert (existsb (fun t => pdone f t && active (f t)) tasks = true); [|congruence].
-        apply existsb_exists. exists t. rewrite Hp, Ea. auto. }
-      assert (B : f t <> SFailed).
-      { intros Hf. assert (existsb (fun t => pdone f t && est_eqb (f t) SFailed) tasks = true); [|congruence].
-        apply existsb_exists. exists t. rewrite Hp, Hf. auto. }
-      destruct (f t); cbn in A; congruence. }
-    assert (G : forall n t, (rank t < n)%nat -> In t tasks -> f t = SSuccess).
-    { induction n as [|n IH]; intros t Hr Hin; [lia|].
-      apply H; [exact Hin|]. unfold parents_done. apply forallb_forall. intros d Hd.
-      rewrite (IH d); [reflexivity| |eapply Hclosed; eassumption]. pose proof (Hrank t d Hd). lia. }
-    intros t Hin. apply (G (S (rank t))); [lia|exact Hin].
+    unfold verdict_of. destruct (existsb (fun t => pdone f t && active (f t)) tasks); [discriminate|]. cbv zeta.
+    destruct (existsb (fun t => pdone f t && est_eqb (f t) SBlocked) tasks) eqn:E.
+    - intros _. apply existsb_exists in E. destruct E as (t & Hin & Ht). apply andb_true_iff in Ht. destruct Ht as (A & B).
+      apply est_eqb_eq in B. exists t. tauto.
+    - destruct (existsb (fun t => pdone f t && est_eqb (f t) SFailed) tasks); destruct pb; cbn; intros H; discriminate H.
   Qed.
+
+  Lemma verdict_success pb f : verdict_of tasks deps pb f = VSuccess -> forall t, In t tasks -> done (f t) = true.
+  Proof.
+    unfold verdict_of. destruct (existsb (fun t => pdone f t && active (f t)) tasks) eqn:E1; [discriminate|]. cbv zeta.
+    destruct (existsb (fun t => pdone f t && est_eqb (f t) SFailed) tasks) eqn:E2;
+      destruct (existsb (fun t => pdone f t && est_eqb (f t) SBlocked) tasks) eqn:E3; destruct pb; cbn; try discriminate; intros _.
+    all: assert (H : forall t, In t tasks -> pdone f t = true -> done (f t) = true);
+      [intros t Hin Hp;
+       assert (A : active (f t) = false);
+       [destruct (active (f t)) eqn:Ea; [|reflexivity]; exfalso;
+        assert (existsb (fun t => pdone f t && active (f t)) tasks = true); [|congruence];
+        apply existsb_exists; exists t; rewrite Hp, Ea; auto|];
+       assert (B : f t <> SFailed);
+       [intros Hf; assert (existsb (fun t => pdone f t && est_eqb (f t) SFailed) tasks = true); [|congruence];
+        apply existsb_exists; exists t; rewrite Hp, Hf; auto|];
+       assert (C : f t <> SBlocked);
+       [intros Hf; assert (existsb (fun t => pdone f t && est_eqb (f t) SBlocked) tasks = true); [|congruence];
+        apply existsb_exists; exists t; rewrite Hp, Hf; auto|];
+       destruct (f t); cbn in A |- *; congruence|];
+      assert (G : forall n t, (rank t < n)%nat -> In t tasks -> done (f t) = true);
+      [induction n as [|n IH]; intros t Hr Hin; [lia|];
+       apply H; [exact Hin|]; unfold parents_done; apply forallb_forall; intros d Hd;
+       apply IH; [pose proof (Hrank t d Hd); lia|eapply Hclosed; eassumption]|];
+      intros t Hin; apply (G (S (rank t))); [lia|exact Hin].
+  Qed.
+
+
+  Definition rearmed (st : est) : Prop := st = SRetrying \/ st = SContinue.
+  Definition ev_st (st : est) : Prop := st = SInit \/ st = SSuccess \/ st = SFailed \/ st = SSkipped \/ st = SBlocked.
 
   Record InvQ (s : eng) : Prop := {
-    q1 : forall c sn, In (c, sn) (pend s) ->
+    q1 : forall c sn, In (c, sn) (dl s) ->
            sn = store s c /\ exec sn = true /\ runs s c = RNone /\ ~ evfor s c /\ In c tasks;
-    q2 : NoDup (map fst (pend s));
-    q3 : forall t st, In (t, st) (evq s) ->
-           store s t = st /\ runs s t = RNone /\ (st = SInit \/ st = SSuccess \/ st = SFailed) /\ In t tasks;
+    q2 : NoDup (map fst (dl s));
+    q3 : forall t st, In (t, st) (evq s) -> store s t = st /\ runs s t = RNone /\ ev_st st /\ In t tasks;
     q4 : NoDup (map fst (evq s));
     q5 : forall t, match runs s t with
                    | RNone => True
@@ -151,22 +181,23 @@ Section Settle.
            tree s = true /\ pdone (know s) t = true /\ exec (know s t) = true;
     q7 : tree s = true -> forall t, In t tasks ->
            know s t = store s t \/ runs s t <> RNone \/ evfor s t \/ (know s t = SRunning /\ store s t = SFailed)
-           \/ (store s t = SRetrying /\ ph s <> PIdle);
+           \/ (rearmed (store s t) /\ ph s <> PIdle);
     q8 : tree s = true -> forall t, In t tasks -> pdone (know s) t = true -> exec (know s t) = true ->
-           know s t = store s t -> runs s t = RNone -> ~ evfor s t -> In (t, store s t) (pend s);
+           know s t = store s t -> runs s t = RNone -> ~ evfor s t -> In (t, store s t) (dl s);
     q9 : tree s = true -> exists t, In t tasks /\ pdone (know s) t = true /\ active (know s t) = true;
-    q10 : ph s <> PIdle -> evq s = [] /\ pend s = [] /\ (forall t, runs s t = RNone);
+    q10 : ph s <> PIdle -> evq s = [] /\ dl s = [] /\ (forall t, runs s t = RNone);
     q10b : ph s = PDown -> tree s = false;
     q10c : ph s = PInit -> armed s = true;
     q10d : ph s = PArm \/ ph s = PInit -> armed s = true ->
-           exists t, In t tasks /\ store s t = SRetrying /\ pdone (store s) t = true;
+           exists t, In t tasks /\ rearmed (store s t) /\ pdone (store s) t = true;
     q11 : tree s = false -> ph s = PIdle -> ins s = IRunning ->
           exists t, In t tasks /\ store s t = SRunning /\ runs s t = RNone;
     q12 : tree s = true -> ph s = PIdle -> forall t, In t tasks -> know s t = SRunning -> store s t = SFailed -> ins s = IFailed;
-    qK : forall t, know s t = SSuccess -> store s t = SSuccess;
+    qK : forall t, done (know s t) = true -> store s t = know s t;
     qF : forall t, store s t <> SInit -> In t tasks /\ pdone (store s) t = true;
-    g1 : ins s = ISuccess -> forall t, In t tasks -> store s t = SSuccess;
+    g1 : ins s = ISuccess -> forall t, In t tasks -> done (store s t) = true;
     g2 : ins s = IFailed -> cmd s = false -> exists t, In t tasks /\ store s t = SFailed;
+    g2b : ins s = IBlocked -> cmd s = false -> exists t, In t tasks /\ store s t = SBlocked;
     g3 : ph s = PArm -> cmd s = true
   }.
 
@@ -178,20 +209,25 @@ Section Settle.
     - exfalso. destruct H as [H|[(st & H)|(sn & H)]]; [congruence|exact H|exact H].
   Qed.
 
+  Lemma dl_nil s : dl s = [] -> pushq s = [] /\ pend s = [].
+  Proof. unfold dl. intros H. apply app_eq_nil in H. exact H. Qed.
+
   (** parents done in the parser's tree are done in the store *)
   Lemma pdone_know_store s t : InvQ s -> pdone (know s) t = true -> pdone (store s) t = true.
-  Proof. intros HI. apply pdone_mono. intros d Hd. apply (qK s HI d Hd). Qed.
+  Proof. intros HI. apply pdone_mono. intros d Hd. rewrite (qK s HI d Hd). exact Hd. Qed.
 
   Lemma inflight_pdone_store s t : InvQ s -> runs s t <> RNone \/ evfor s t \/ inpend s t -> pdone (store s) t = true.
   Proof. intros HI H. apply (pdone_know_store s t HI). apply (q6 s HI t H). Qed.
 
-  Lemma writing_store s t : InvQ s -> writing (runs s t) -> store s t <> SSuccess /\ store s t <> SFailed /\ In t tasks.
+  Lemma writing_store s t : InvQ s -> writing (runs s t) ->
+    done (store s t) = false /\ store s t <> SFailed /\ store s t <> SBlocked /\ In t tasks.
   Proof.
     intros HI Hw. pose proof (q5 s HI t) as H. destruct (runs s t) as [|sn| | | |ev]; cbn in Hw; try contradiction.
-    - destruct H as (H1 & H2 & H3). subst sn. repeat split; try exact H3; intros E; rewrite E in H2; discriminate.
-    - destruct H as (H1 & H3). repeat split; congruence.
-    - destruct H as (H1 & H3). repeat split; congruence.
-    - destruct H as (H1 & H3). repeat split; congruence.
+    - destruct H as (H1 & H2 & H3). subst sn. repeat split; try exact H3; try (intros E; rewrite E in H2; discriminate).
+      destruct (store s t); cbn in H2 |- *; congruence.
+    - destruct H as (H1 & H3). rewrite H1. repeat split; try discriminate; exact H3.
+    - destruct H as (H1 & H3). rewrite H1. repeat split; try discriminate; exact H3.
+    - destruct H as (H1 & H3). rewrite H1. repeat split; try discriminate; exact H3.
   Qed.
 
   (** a registered run of [t] that has not yet written its last status stores [v] and moves on to [r'] *)
@@ -207,7 +243,7 @@ Section Settle.
     InvQ (set_runs (set_store s (upd (store s) t v)) (upd (runs s) t r')).
   Proof.
     intros HI Hw Hr' Hv.
-    destruct (writing_store s t HI Hw) as (Hns & Hnf & Hin).
+    destruct (writing_store s t HI Hw) as (Hns & Hnf & Hnb & Hin).
     assert (Hlive : runs s t <> RNone) by (destruct (runs s t); cbn in Hw; try contradiction; discriminate).
     pose proof (q6 s HI t (or_introl Hlive)) as (Htree & Hpk & Hek).
     assert (Hq10 : ph s = PIdle).
@@ -241,14 +277,16 @@ Section Settle.
       + rewrite A in Hek. discriminate.
       + rewrite upd_other in B by exact Hne. apply (q12 s HI Htree Hq10 x Hx A B).
     - intros x Hx. destruct (Z.eq_dec x t) as [->|Hne].
-      + rewrite Hx in Hek. discriminate.
+      + exfalso. destruct (know s t); cbn in Hx, Hek; congruence.
       + rewrite upd_other by exact Hne. apply (qK s HI x Hx).
     - intros x Hx. destruct (Z.eq_dec x t) as [->|Hne].
       + split; [exact Hin|]. apply pdone_upd; [exact Hns|]. apply (inflight_pdone_store s t HI). left. exact Hlive.
       + rewrite upd_other in Hx by exact Hne. destruct (qF s HI x Hx) as (A & B). split; [exact A|].
         apply pdone_upd; assumption.
-    - intros Hi x Hx. exfalso. apply Hns. apply (g1 s HI Hi t Hin).
+    - intros Hi x Hx. exfalso. rewrite (g1 s HI Hi t Hin) in Hns. discriminate.
     - intros Hi Hc. destruct (g2 s HI Hi Hc) as (x & A & B). exists x. split; [exact A|].
+      assert (x <> t) by (intros ->; congruence). rewrite upd_other by assumption. exact B.
+    - intros Hi Hc. destruct (g2b s HI Hi Hc) as (x & A & B). exists x. split; [exact A|].
       assert (x <> t) by (intros ->; congruence). rewrite upd_other by assumption. exact B.
     - apply (g3 s HI).
   Qed.
@@ -299,20 +337,33 @@ Section Settle.
     - intros [(st & H)| ->]; [exists st; apply in_or_app; left; exact H|exists ev; apply in_or_app; right; left; reflexivity].
   Qed.
 
+  Lemma nodup_fst_perm (l l' : list (Z * est)) : Permutation l l' -> NoDup (map fst l) -> NoDup (map fst l').
+  Proof. intros Hp. apply Permutation_NoDup. apply Permutation_map. exact Hp. Qed.
+
+  Lemma nodup_fst_cons_inv (p : Z * est) l : NoDup (map fst (p :: l)) -> NoDup (map fst l) /\ ~ In (fst p) (map fst l).
+  Proof. cbn. intros H. inversion H; subst. split; assumption. Qed.
+
+  (** the executor accepts a delivery *)
   Lemma invq_accept s t sn p' :
     InvQ s -> remove1 (t, sn) (pend s) = Some p' -> InvQ (set_pend (set_runs s (upd (runs s) t (RQueued sn))) p').
   Proof.
     intros HI Hr.
     pose proof (remove1_mem _ _ _ Hr) as Hmem.
-    destruct (q1 s HI t sn Hmem) as (Hsn & Hex & Hrn & Hnev & Hin).
-    assert (Hfl : inpend s t) by (exists sn; exact Hmem).
+    assert (Hmem' : In (t, sn) (dl s)) by (unfold dl; apply in_or_app; right; exact Hmem).
+    destruct (q1 s HI t sn Hmem') as (Hsn & Hex & Hrn & Hnev & Hin).
+    assert (Hfl : inpend s t) by (exists sn; exact Hmem').
     pose proof (q6 s HI t (or_intror (or_intror Hfl))) as (Htree & Hpk & Hek).
-    destruct (remove1_nodup _ _ _ Hr (q2 s HI)) as (Hnd' & Hni'). cbn in Hni'.
+    assert (Hperm : Permutation (dl s) ((t, sn) :: (pushq s ++ p'))).
+    { unfold dl. eapply Permutation_trans; [apply Permutation_app_head; apply (remove1_perm _ _ _ Hr)|].
+      apply Permutation_sym. apply Permutation_middle. }
+    destruct (nodup_fst_cons_inv _ _ (nodup_fst_perm _ _ Hperm (q2 s HI))) as (Hnd' & Hni'). cbn in Hni'.
+    assert (Hsub : forall x, In x (pushq s ++ p') -> In x (dl s)).
+    { intros x Hx. eapply Permutation_in; [apply Permutation_sym; exact Hperm|right; exact Hx]. }
     assert (Hq10 : ph s = PIdle).
     { destruct (ph s) eqn:E; [reflexivity| | |]; exfalso; destruct (q10 s HI) as (_ & B & _); try congruence;
-        rewrite B in Hmem; contradiction. }
-    constructor; cbn.
-    - intros c sn' Hc. pose proof (remove1_in _ _ _ _ Hr Hc) as Hc0. destruct (q1 s HI c sn' Hc0) as (A & B & C & D & E).
+        rewrite B in Hmem'; contradiction. }
+    constructor; cbn; unfold dl; cbn.
+    - intros c sn' Hc. destruct (q1 s HI c sn' (Hsub _ Hc)) as (A & B & C & D & E).
       assert (c <> t). { intros ->. apply Hni'. eapply in_map_fst. exact Hc. }
       rewrite upd_other by assumption. repeat split; assumption.
     - exact Hnd'.
@@ -326,13 +377,13 @@ Section Settle.
     - intros x Hx. apply (q6 s HI x). destruct Hx as [Hx|[Hx|Hx]].
       + destruct (Z.eq_dec x t) as [->|Hne]; [right; right; exact Hfl|]. rewrite upd_other in Hx by exact Hne. left. exact Hx.
       + right. left. exact Hx.
-      + right. right. destruct Hx as (sn' & Hx). exists sn'. eapply remove1_in; eassumption.
+      + right. right. destruct Hx as (sn' & Hx). exists sn'. apply Hsub. exact Hx.
     - intros _ x Hx. destruct (Z.eq_dec x t) as [->|Hne].
       + right. left. rewrite upd_same. discriminate.
       + rewrite upd_other by exact Hne. apply (q7 s HI Htree x Hx).
     - intros _ x Hx A B C D E. destruct (Z.eq_dec x t) as [->|Hne]; [rewrite upd_same in D; discriminate|].
       rewrite upd_other in D by exact Hne. pose proof (q8 s HI Htree x Hx A B C D E) as H.
-      eapply remove1_other; [exact Hr|exact H|exact Hne].
+      pose proof (Permutation_in _ Hperm H) as H'. destruct H' as [H'|H']; [inv H'; congruence|exact H'].
     - apply (q9 s HI).
     - intros Hp. congruence.
     - intros Hp. congruence.
@@ -344,7 +395,28 @@ Section Settle.
     - apply (qF s HI).
     - apply (g1 s HI).
     - apply (g2 s HI).
+    - apply (g2b s HI).
     - apply (g3 s HI).
+  Qed.
+
+  (** Push hands a task to the executor *)
+  Lemma invq_pushrun s t sn q' :
+    InvQ s -> remove1 (t, sn) (pushq s) = Some q' -> InvQ (set_pend (set_pushq s q') (pend s ++ [(t, sn)])).
+  Proof.
+    intros HI Hr.
+    assert (Hperm : Permutation (dl s) (q' ++ pend s ++ [(t, sn)])).
+    { unfold dl. eapply Permutation_trans; [apply Permutation_app_tail; apply (remove1_perm _ _ _ Hr)|].
+      cbn. eapply Permutation_trans; [apply Permutation_cons_append|]. rewrite <- app_assoc. apply Permutation_refl. }
+    assert (Hiff : forall x, In x (q' ++ pend s ++ [(t, sn)]) <-> In x (dl s)).
+    { intros x. split; intros H; [eapply Permutation_in; [apply Permutation_sym; exact Hperm|exact H]|eapply Permutation_in; [exact Hperm|exact H]]. }
+    constructor; cbn; unfold dl; cbn; try apply HI.
+    - intros c sn' Hc. apply (q1 s HI c sn'). apply Hiff. exact Hc.
+    - apply (nodup_fst_perm _ _ Hperm (q2 s HI)).
+    - intros x Hx. apply (q6 s HI x). destruct Hx as [Hx|[Hx|(sn' & Hx)]]; [left; exact Hx|right; left; exact Hx|].
+      right. right. exists sn'. apply Hiff. exact Hx.
+    - intros Htree x Hx A B C D E. apply Hiff. apply (q8 s HI Htree x Hx A B C D E).
+    - intros Hp. destruct (q10 s HI Hp) as (_ & B & _). exfalso. pose proof (remove1_mem _ _ _ Hr) as Hm.
+      destruct (dl_nil s B) as (B1 & _). rewrite B1 in Hm. exact Hm.
   Qed.
 
   Lemma invq_finish s t ev :
@@ -365,7 +437,7 @@ Section Settle.
     - intros x st Hx. apply in_app_or in Hx. destruct Hx as [Hx|[Hx|[]]].
       + destruct (q3 s HI x st Hx) as (A & B & C & D).
         assert (x <> t) by (intros ->; congruence). rewrite upd_other by assumption. repeat split; assumption.
-      + inv Hx. rewrite upd_same. repeat split; auto.
+      + inv Hx. rewrite upd_same. repeat split; auto. unfold ev_st. tauto.
     - rewrite map_app. cbn. apply NoDup_app_one; [apply (q4 s HI)|].
       intros Hx. apply in_map_iff in Hx. destruct Hx as ((x, st) & Hx1 & Hx2). cbn in Hx1. subst x. apply Hnoev. exists st. exact Hx2.
     - intros x. destruct (Z.eq_dec x t) as [->|Hne]; [rewrite upd_same; exact Logic.I|].
@@ -393,21 +465,102 @@ Section Settle.
     - apply (qF s HI).
     - apply (g1 s HI).
     - apply (g2 s HI).
+    - apply (g2b s HI).
     - apply (g3 s HI).
   Qed.
 
-  Lemma quiet_all s : InvQ s -> quiet tasks s = true -> evq s = [] /\ pend s = [] /\ (forall t, runs s t = RNone).
+  (** Push writes a pre-check verdict (skipped / blocked) and tells the parser *)
+  Lemma invq_push_verdict s t sn v q' :
+    InvQ s -> remove1 (t, sn) (pushq s) = Some q' -> (v = SSkipped \/ v = SBlocked) -> InvQ (push_verdict s t v q').
   Proof.
-    intros HI Hq. unfold quiet in Hq. destruct (evq s); [|discriminate]. destruct (pend s); [|discriminate].
+    intros HI Hr Hv.
+    pose proof (remove1_mem _ _ _ Hr) as Hmem.
+    assert (Hmem' : In (t, sn) (dl s)) by (unfold dl; apply in_or_app; left; exact Hmem).
+    destruct (q1 s HI t sn Hmem') as (Hsn & Hex & Hrn & Hnev & Hin).
+    assert (Hfl : inpend s t) by (exists sn; exact Hmem').
+    pose proof (q6 s HI t (or_intror (or_intror Hfl))) as (Htree & Hpk & Hek).
+    assert (Hns : done (store s t) = false) by (rewrite <- Hsn; destruct sn; cbn in Hex |- *; congruence).
+    assert (Hperm : Permutation (dl s) ((t, sn) :: (q' ++ pend s))).
+    { unfold dl. apply (Permutation_app_tail (pend s) (remove1_perm _ _ _ Hr)). }
+    destruct (nodup_fst_cons_inv _ _ (nodup_fst_perm _ _ Hperm (q2 s HI))) as (Hnd' & Hni'). cbn in Hni'.
+    assert (Hsub : forall x, In x (q' ++ pend s) -> In x (dl s)).
+    { intros x Hx. eapply Permutation_in; [apply Permutation_sym; exact Hperm|right; exact Hx]. }
+    assert (Hq10 : ph s = PIdle).
+    { destruct (ph s) eqn:E; [reflexivity| | |]; exfalso; destruct (q10 s HI) as (_ & B & _); try congruence;
+        rewrite B in Hmem'; contradiction. }
+    assert (Hvd : v <> SInit /\ v <> SFailed /\ v <> SRunning /\ exec v = false) by (destruct Hv; subst v; repeat split; discriminate).
+    destruct Hvd as (Hv1 & Hv2 & Hv3 & Hv4).
+    unfold push_verdict.
+    constructor; cbn; unfold dl; cbn.
+    - intros c sn' Hc. destruct (q1 s HI c sn' (Hsub _ Hc)) as (A & B & C & D & E).
+      assert (c <> t). { intros ->. apply Hni'. eapply in_map_fst. exact Hc. }
+      rewrite upd_other by assumption. repeat split; try assumption.
+      intros Hx. apply (evfor_app (set_pushq (set_store s (upd (store s) t v)) q') c t v) in Hx.
+      destruct Hx as [Hx|Hx]; [exact (D Hx)|contradiction].
+    - exact Hnd'.
+    - intros x st Hx. apply in_app_or in Hx. destruct Hx as [Hx|[Hx|[]]].
+      + destruct (q3 s HI x st Hx) as (A & B & C & D).
+        assert (x <> t). { intros ->. apply Hnev. exists st. exact Hx. }
+        rewrite upd_other by assumption. repeat split; assumption.
+      + inv Hx. rewrite upd_same. repeat split; auto. unfold ev_st. destruct Hv; tauto.
+    - rewrite map_app. cbn. apply NoDup_app_one; [apply (q4 s HI)|].
+      intros Hx. apply in_map_iff in Hx. destruct Hx as ((x, st) & Hx1 & Hx2). cbn in Hx1. subst x. apply Hnev. exists st. exact Hx2.
+    - intros x. pose proof (q5 s HI x) as H5. destruct (Z.eq_dec x t) as [->|Hne]; [rewrite Hrn; exact Logic.I|].
+      rewrite upd_other by exact Hne. exact H5.
+    - intros x Hx. apply (q6 s HI x). destruct Hx as [Hx|[Hx|(sn' & Hx)]].
+      + left. exact Hx.
+      + apply (evfor_app (set_pushq (set_store s (upd (store s) t v)) q') x t v) in Hx.
+        destruct Hx as [Hx| ->]; [right; left; exact Hx|right; right; exact Hfl].
+      + right. right. exists sn'. apply Hsub. exact Hx.
+    - intros _ x Hx. destruct (Z.eq_dec x t) as [->|Hne].
+      + right. right. left. apply (evfor_app (set_pushq (set_store s (upd (store s) t v)) q') t t v). right. reflexivity.
+      + rewrite upd_other by exact Hne. destruct (q7 s HI Htree x Hx) as [A|[A|[A|A]]]; auto.
+        right. right. left. apply (evfor_app (set_pushq (set_store s (upd (store s) t v)) q') x t v). left. exact A.
+    - intros _ x Hx A B C D E. destruct (Z.eq_dec x t) as [->|Hne].
+      + exfalso. apply E. apply (evfor_app (set_pushq (set_store s (upd (store s) t v)) q') t t v). right. reflexivity.
+      + rewrite upd_other in C by exact Hne. rewrite upd_other by exact Hne.
+        assert (E' : ~ evfor s x).
+        { intros Hx'. apply E. apply (evfor_app (set_pushq (set_store s (upd (store s) t v)) q') x t v). left. exact Hx'. }
+        pose proof (q8 s HI Htree x Hx A B C D E') as H.
+        pose proof (Permutation_in _ Hperm H) as H'. destruct H' as [H'|H']; [inv H'; congruence|exact H'].
+    - apply (q9 s HI).
+    - intros Hp. congruence.
+    - intros Hp. congruence.
+    - intros Hp. congruence.
+    - intros [Hp|Hp]; congruence.
+    - intros Ht. congruence.
+    - intros _ _ x Hx A B. destruct (Z.eq_dec x t) as [->|Hne].
+      + rewrite upd_same in B. congruence.
+      + rewrite upd_other in B by exact Hne. apply (q12 s HI Htree Hq10 x Hx A B).
+    - intros x Hx. destruct (Z.eq_dec x t) as [->|Hne].
+      + exfalso. destruct (know s t); cbn in Hx, Hek; congruence.
+      + rewrite upd_other by exact Hne. apply (qK s HI x Hx).
+    - intros x Hx. destruct (Z.eq_dec x t) as [->|Hne].
+      + split; [exact Hin|]. apply pdone_upd; [exact Hns|]. apply (inflight_pdone_store s t HI). right. right. exact Hfl.
+      + rewrite upd_other in Hx by exact Hne. destruct (qF s HI x Hx) as (A & B). split; [exact A|]. apply pdone_upd; assumption.
+    - intros Hi x Hx. exfalso. rewrite (g1 s HI Hi t Hin) in Hns. discriminate.
+    - intros Hi Hc. destruct (g2 s HI Hi Hc) as (x & A & B). exists x. split; [exact A|].
+      assert (x <> t). { intros ->. rewrite B in Hsn. subst sn. discriminate. }
+      rewrite upd_other by assumption. exact B.
+    - intros Hi Hc. destruct (g2b s HI Hi Hc) as (x & A & B). exists x. split; [exact A|].
+      assert (x <> t). { intros ->. rewrite B in Hsn. subst sn. discriminate. }
+      rewrite upd_other by assumption. exact B.
+    - apply (g3 s HI).
+  Qed.
+
+  Lemma quiet_all s : InvQ s -> quiet tasks s = true -> evq s = [] /\ dl s = [] /\ (forall t, runs s t = RNone).
+  Proof.
+    intros HI Hq. unfold quiet in Hq. unfold dl. destruct (evq s); [|discriminate]. destruct (pend s); [|discriminate].
+    destruct (pushq s); [|discriminate].
     repeat split. intros t. rewrite forallb_forall in Hq.
     pose proof (q5 s HI t) as H5. destruct (runs s t) eqn:E; [reflexivity| | | | |];
       (assert (Hin : In t tasks) by tauto; specialize (Hq t Hin); rewrite E in Hq; discriminate).
   Qed.
 
   Lemma invq_crash s :
-    InvQ s -> InvQ (set_armed (set_ph (set_tree (set_pend (set_evq (set_runs s (fun _ => RNone)) []) []) false) PDown) false).
+    InvQ s -> InvQ (set_armed (set_ph (set_tree (set_pushq (set_pend (set_evq (set_runs s (fun _ => RNone)) []) []) []) false) PDown) false).
   Proof.
-    intros HI. constructor; cbn; try (intros; discriminate); try (intros; contradiction); try apply HI.
+    intros HI. constructor; cbn; unfold dl; cbn; try (intros; discriminate); try (intros; contradiction); try apply HI.
     - constructor.
     - constructor.
     - intros t. exact Logic.I.
@@ -420,10 +573,10 @@ Section Settle.
     InvQ s -> store s t = SRunning -> runs s t = RNone -> InvQ (set_ins (set_store s (upd (store s) t SFailed)) IFailed).
   Proof.
     intros HI Hst Hr.
-    assert (Hns : store s t <> SSuccess) by congruence.
+    assert (Hns : done (store s t) = false) by (rewrite Hst; reflexivity).
     assert (Hin : In t tasks). { apply (qF s HI t). congruence. }
     assert (Hnoev : ~ evfor s t).
-    { intros (st & Hx). destruct (q3 s HI t st Hx) as (A & _ & C & _). destruct C as [C|[C|C]]; congruence. }
+    { intros (st & Hx). destruct (q3 s HI t st Hx) as (A & _ & C & _). unfold ev_st in C. destruct C as [C|[C|[C|[C|C]]]]; congruence. }
     constructor; cbn.
     - intros c sn Hc. destruct (q1 s HI c sn Hc) as (A & B & C & D & E).
       assert (c <> t). { intros ->. rewrite Hst in A. subst sn. discriminate. }
@@ -442,32 +595,33 @@ Section Settle.
         * congruence.
         * contradiction.
         * destruct A; congruence.
-        * destruct A; congruence.
+        * destruct A as ([A|A] & _); congruence.
       + rewrite upd_other by exact Hne. apply (q7 s HI Htree x Hx).
     - intros Htree x Hx A B C D E. destruct (Z.eq_dec x t) as [->|Hne].
       + rewrite upd_same in C. rewrite C in B. discriminate.
-      + rewrite upd_other in C |- * by exact Hne. apply (q8 s HI Htree x Hx A B C D E).
+      + rewrite upd_other in C by exact Hne. rewrite upd_other by exact Hne. apply (q8 s HI Htree x Hx A B C D E).
     - apply (q9 s HI).
     - apply (q10 s HI).
     - apply (q10b s HI).
     - apply (q10c s HI).
     - intros Hp Ha. destruct (q10d s HI Hp Ha) as (x & A & B & C). exists x.
-      assert (x <> t) by (intros ->; congruence). rewrite upd_other by assumption. repeat split; try assumption.
+      assert (x <> t) by (intros ->; destruct B; congruence). rewrite upd_other by assumption. repeat split; try assumption.
       apply pdone_upd; assumption.
     - intros _ _ Hi. discriminate.
     - intros _ _ x Hx A B. reflexivity.
-    - intros x Hx. destruct (Z.eq_dec x t) as [->|Hne]; [pose proof (qK s HI t Hx); congruence|].
+    - intros x Hx. destruct (Z.eq_dec x t) as [->|Hne]; [pose proof (qK s HI t Hx) as H; rewrite <- H in Hx; rewrite Hst in Hx; discriminate|].
       rewrite upd_other by exact Hne. apply (qK s HI x Hx).
     - intros x Hx. destruct (Z.eq_dec x t) as [->|Hne].
       + split; [exact Hin|]. apply pdone_upd; [exact Hns|]. apply (qF s HI t). congruence.
       + rewrite upd_other in Hx by exact Hne. destruct (qF s HI x Hx) as (A & B). split; [exact A|]. apply pdone_upd; assumption.
     - intros Hi. discriminate.
     - intros _ _. exists t. split; [exact Hin|apply upd_same].
+    - intros Hi. discriminate.
     - apply (g3 s HI).
   Qed.
 
   Lemma invq_cmdissue s : InvQ s -> InvQ (set_cmd s true).
-  Proof. intros HI. constructor; cbn; try apply HI. intros _ H. discriminate. intros _. reflexivity. Qed.
+  Proof. intros HI. constructor; cbn; try apply HI; try (intros _ H; discriminate). intros _. reflexivity. Qed.
 
   Lemma invq_cmdbegin s :
     InvQ s -> ph s = PIdle -> cmd s = true -> quiet tasks s = true -> InvQ (set_armed (set_ph s PArm) false).
@@ -480,47 +634,55 @@ Section Settle.
     - intros _. exact Hc.
   Qed.
 
-  Lemma invq_rearm s t :
-    InvQ s -> ph s = PArm -> store s t = SFailed -> In t tasks ->
-    InvQ (set_armed (set_started (set_store s (upd (store s) t SRetrying)) (upd (started s) t false)) true).
+  (** the command watcher re-arms a target: failed -> retrying (retry), blocked -> continue (continue) *)
+  Lemma invq_arm s t v :
+    InvQ s -> ph s = PArm -> (store s t = SFailed /\ v = SRetrying) \/ (store s t = SBlocked /\ v = SContinue) -> In t tasks ->
+    InvQ (set_armed (set_store s (upd (store s) t v)) true).
   Proof.
-    intros HI Hp Hst Hin.
-    assert (Hns : store s t <> SSuccess) by congruence.
+    intros HI Hp Hsv Hin.
+    assert (Hns : done (store s t) = false) by (destruct Hsv as [(H & _)|(H & _)]; rewrite H; reflexivity).
+    assert (Hrv : rearmed v) by (destruct Hsv as [(_ & H)|(_ & H)]; subst v; [left|right]; reflexivity).
+    assert (Hnk : store s t <> SInit /\ store s t <> SRunning /\ exec (store s t) = false).
+    { destruct Hsv as [(H & _)|(H & _)]; rewrite H; repeat split; discriminate. }
+    destruct Hnk as (Hni & Hnr & Hnex).
     assert (Hq : ph s <> PIdle) by congruence.
     destruct (q10 s HI Hq) as (Qe & Qp & Qr).
-    assert (Hpd : pdone (store s) t = true). { apply (qF s HI t). congruence. }
+    assert (Hpd : pdone (store s) t = true). { apply (qF s HI t). exact Hni. }
     constructor; cbn.
-    - rewrite Qp. intros c sn [].
+    - unfold dl in *. cbn. rewrite Qp. intros c sn [].
     - apply (q2 s HI).
     - rewrite Qe. intros x st [].
     - apply (q4 s HI).
     - intros x. rewrite Qr. exact Logic.I.
-    - intros x [H|[(st & H)|(sn & H)]]; [rewrite Qr in H; congruence|cbn in H; rewrite Qe in H; contradiction|cbn in H; rewrite Qp in H; contradiction].
+    - intros x [H|[(st & H)|(sn & H)]]; [rewrite Qr in H; congruence|cbn in H; rewrite Qe in H; contradiction|].
+      unfold dl in *. cbn in H. rewrite Qp in H. contradiction.
     - intros Htree x Hx. destruct (Z.eq_dec x t) as [->|Hne].
-      + right. right. right. right. rewrite upd_same. split; [reflexivity|exact Hq].
+      + right. right. right. right. rewrite upd_same. split; [exact Hrv|exact Hq].
       + rewrite upd_other by exact Hne. apply (q7 s HI Htree x Hx).
     - intros Htree x Hx A B C D E. exfalso. destruct (Z.eq_dec x t) as [->|Hne].
       + rewrite upd_same in C. destruct (q7 s HI Htree t Hx) as [H|[H|[H|[H|H]]]].
-        * rewrite H, Hst in C. discriminate.
+        * rewrite H in B. rewrite B in Hnex. discriminate.
         * apply H. apply Qr.
         * destruct H as (st & H). rewrite Qe in H. contradiction.
-        * destruct H as (H & _). rewrite H in C. discriminate.
-        * destruct H as (H & _). congruence.
+        * destruct H as (H & _). rewrite H in B. discriminate.
+        * destruct H as (H & _). destruct Hsv as [(H1 & _)|(H1 & _)]; destruct H as [H|H]; congruence.
       + rewrite upd_other in C by exact Hne. pose proof (q8 s HI Htree x Hx A B C D) as H.
-        rewrite Qp in H. apply H. intros (st & H'). rewrite Qe in H'. contradiction.
+        unfold dl in *. rewrite Qp in H. apply H. intros (st & H'). rewrite Qe in H'. contradiction.
     - apply (q9 s HI).
     - intros _. repeat split; assumption.
     - apply (q10b s HI).
     - intros _. reflexivity.
-    - intros _ _. exists t. rewrite upd_same. repeat split; [exact Hin|]. apply pdone_upd; assumption.
+    - intros _ _. exists t. rewrite upd_same. repeat split; [exact Hin|exact Hrv|]. apply pdone_upd; assumption.
     - intros _ H. congruence.
     - intros _ H. congruence.
-    - intros x Hx. destruct (Z.eq_dec x t) as [->|Hne]; [pose proof (qK s HI t Hx); congruence|].
-      rewrite upd_other by exact Hne. apply (qK s HI x Hx).
+    - intros x Hx. destruct (Z.eq_dec x t) as [->|Hne].
+      + exfalso. rewrite <- (qK s HI t Hx) in Hx. rewrite Hx in Hns. discriminate.
+      + rewrite upd_other by exact Hne. apply (qK s HI x Hx).
     - intros x Hx. destruct (Z.eq_dec x t) as [->|Hne].
       + split; [exact Hin|]. apply pdone_upd; assumption.
       + rewrite upd_other in Hx by exact Hne. destruct (qF s HI x Hx) as (A & B). split; [exact A|]. apply pdone_upd; assumption.
-    - intros Hi x Hx. exfalso. pose proof (g1 s HI Hi t Hin). congruence.
+    - intros Hi x Hx. exfalso. rewrite (g1 s HI Hi t Hin) in Hns. discriminate.
+    - intros _ Hc. pose proof (g3 s HI Hp). congruence.
     - intros _ Hc. pose proof (g3 s HI Hp). congruence.
     - apply (g3 s HI).
   Qed.
@@ -560,12 +722,12 @@ Section Settle.
   Lemma active_not_exec st : active st = true -> exec st = false -> st = SRunning.
   Proof. destruct st; cbn; congruence. Qed.
 
-  Lemma invq_initial s :
-    InvQ s -> ph s = PInit \/ (ph s = PDown /\ ins s = IRunning) -> InvQ (set_ph (initial tasks deps s) PIdle).
+  Lemma invq_initial pb s :
+    InvQ s -> ph s = PInit \/ (ph s = PDown /\ ins s = IRunning) -> InvQ (set_ph (initial tasks deps pb s) PIdle).
   Proof.
     intros HI Hph.
     assert (Hq : ph s <> PIdle) by (destruct Hph as [H|(H & _)]; congruence).
-    destruct (q10 s HI Hq) as (Qe & Qp & Qr).
+    destruct (q10 s HI Hq) as (Qe & Qd & Qr). destruct (dl_nil s Qd) as (Qq & Qp).
     unfold initial. destruct (filter (pushable deps (store s)) tasks) as [|e ex] eqn:EL.
     - (* nothing is executable *)
       assert (Hnp : forall t, In t tasks -> pushable deps (store s) t = false).
@@ -573,9 +735,9 @@ Section Settle.
         assert (In t []) as []. rewrite <- EL. apply filter_In. split; assumption. }
       destruct Hph as [Hp|(Hp & Hi)].
       { exfalso. destruct (q10d s HI (or_intror Hp) (q10c s HI Hp)) as (t & A & B & C).
-        specialize (Hnp t A). unfold pushable in Hnp. rewrite B, C in Hnp. discriminate. }
+        specialize (Hnp t A). unfold pushable in Hnp. rewrite C in Hnp. destruct B as [B|B]; rewrite B in Hnp; discriminate. }
       pose proof (q10b s HI Hp) as Htree.
-      destruct (verdict_of tasks deps (store s)) eqn:EV.
+      destruct (verdict_of tasks deps pb (store s)) eqn:EV.
       + constructor; cbn; try apply HI; try (intros; congruence).
         * intros [H|H]; congruence.
         * intros _ _ _. apply verdict_running in EV. destruct EV as (t & A & B & C). exists t.
@@ -583,10 +745,13 @@ Section Settle.
           repeat split; [exact A|apply active_not_exec; assumption|apply Qr].
       + constructor; cbn; try apply HI; try (intros; congruence).
         * intros [H|H]; congruence.
-        * intros _. apply verdict_success. exact EV.
+        * intros _. apply (verdict_success pb). exact EV.
       + constructor; cbn; try apply HI; try (intros; congruence).
         * intros [H|H]; congruence.
         * intros _ _. apply verdict_failed in EV. destruct EV as (t & A & B & C). exists t. split; assumption.
+      + constructor; cbn; try apply HI; try (intros; congruence).
+        * intros [H|H]; congruence.
+        * intros _ _. apply verdict_blocked in EV. destruct EV as (t & A & B & C). exists t. split; assumption.
     - (* the tree is stored, everything executable is pushed *)
       assert (HL : forall x, In x (e :: ex) <-> In x tasks /\ pushable deps (store s) x = true).
       { intros x. rewrite <- EL. apply filter_In. }
@@ -594,19 +759,19 @@ Section Settle.
       remember (e :: ex) as L. clear EL.
       assert (Hpush : forall x, In x L -> exec (store s x) = true /\ pdone (store s) x = true /\ In x tasks).
       { intros x Hx. apply HL in Hx. destruct Hx as (A & B). unfold pushable in B. apply andb_true_iff in B. tauto. }
-      constructor; cbn.
-      + intros c sn Hc. rewrite Qp in Hc. cbn in Hc. apply in_snap in Hc. destruct Hc as (Hc & ->).
+      constructor; cbn; unfold dl; cbn; rewrite ?Qq, ?Qp, ?app_nil_r; cbn.
+      + intros c sn Hc. apply in_snap in Hc. destruct Hc as (Hc & ->).
         destruct (Hpush c Hc) as (A & B & C). repeat split; try assumption; [apply Qr|].
         intros (st & Hx). cbn in Hx. rewrite Qe in Hx. contradiction.
-      + rewrite Qp. cbn. rewrite map_fst_snap. exact HLnd.
+      + rewrite map_fst_snap. exact HLnd.
       + rewrite Qe. intros x st [].
       + apply (q4 s HI).
       + intros x. rewrite Qr. exact Logic.I.
       + intros x [H|[(st & H)|(sn & H)]]; [rewrite Qr in H; congruence|cbn in H; rewrite Qe in H; contradiction|].
-        cbn in H. rewrite Qp in H. cbn in H. apply in_snap in H. destruct H as (H & _).
+        unfold dl in H. cbn in H. rewrite ?Qq, ?Qp, ?app_nil_r in H. cbn in H. apply in_snap in H. destruct H as (H & _).
         destruct (Hpush x H) as (A & B & C). repeat split; assumption.
       + intros _ x Hx. left. reflexivity.
-      + intros _ x Hx A B _ _ _. rewrite Qp. cbn. apply in_snap. split; [|reflexivity].
+      + intros _ x Hx A B _ _ _. apply in_snap. split; [|reflexivity].
         apply HL. split; [exact Hx|]. unfold pushable. rewrite A, B. reflexivity.
       + intros _. subst L. exists e. destruct (Hpush e (or_introl eq_refl)) as (A & B & C).
         repeat split; try assumption. apply exec_active. exact A.
@@ -616,20 +781,20 @@ Section Settle.
       + intros [H|H]; discriminate.
       + intros H. discriminate.
       + intros _ _ x Hx A B. congruence.
-      + intros x Hx. exact Hx.
+      + intros x Hx. reflexivity.
       + apply (qF s HI).
       + apply (g1 s HI).
       + apply (g2 s HI).
+      + apply (g2b s HI).
       + intros H. discriminate.
   Qed.
-
-  Lemma invq_eta_pend s : InvQ (set_pend s (pend s)) -> InvQ s.
+  Lemma invq_eta_pushq s : InvQ (set_pushq s (pushq s)) -> InvQ s.
   Proof.
     intros H. constructor.
     - exact (q1 _ H). - exact (q2 _ H). - exact (q3 _ H). - exact (q4 _ H). - exact (q5 _ H). - exact (q6 _ H).
     - exact (q7 _ H). - exact (q8 _ H). - exact (q9 _ H). - exact (q10 _ H). - exact (q10b _ H). - exact (q10c _ H).
     - exact (q10d _ H). - exact (q11 _ H). - exact (q12 _ H). - exact (qK _ H). - exact (qF _ H). - exact (g1 _ H).
-    - exact (g2 _ H). - exact (g3 _ H).
+    - exact (g2 _ H). - exact (g2b _ H). - exact (g3 _ H).
   Qed.
 
   Section Deliver.
@@ -640,7 +805,7 @@ Section Settle.
     Let k' := upd (know s) t0 st.
     Let s1 := set_know (set_evq s r) k'.
 
-    Lemma dl_head : store s t0 = st /\ runs s t0 = RNone /\ (st = SInit \/ st = SSuccess \/ st = SFailed) /\ In t0 tasks.
+    Lemma dl_head : store s t0 = st /\ runs s t0 = RNone /\ ev_st st /\ In t0 tasks.
     Proof. apply (q3 s HI). rewrite Heq. left. reflexivity. Qed.
 
     Lemma dl_evfor0 : evfor s t0.
@@ -670,7 +835,7 @@ Section Settle.
       - intros (st' & H). exists st'. right. exact H.
     Qed.
 
-    Lemma dl_pend_not0 : forall sn, ~ In (t0, sn) (pend s).
+    Lemma dl_pend_not0 : forall sn, ~ In (t0, sn) (dl s).
     Proof. intros sn Hin. destruct (q1 s HI t0 sn Hin) as (_ & _ & _ & H & _). apply H. exact dl_evfor0. Qed.
 
     (** whatever is still in flight after the event was taken is another task, reachable and executable in the updated tree *)
@@ -696,56 +861,60 @@ Section Settle.
       apply pdone_upd_notdone; [exact dl_notdone|exact B].
     Qed.
 
-    Lemma dl_K x : k' x = SSuccess -> store s x = SSuccess.
+    Lemma dl_K x : done (k' x) = true -> store s x = k' x.
     Proof.
       unfold k'. intros Hx. destruct (Z.eq_dec x t0) as [->|Hne].
-      - rewrite upd_same in Hx. destruct dl_head as (A & _). congruence.
-      - rewrite upd_other in Hx by exact Hne. apply (qK s HI x Hx).
+      - rewrite upd_same in Hx |- *. destruct dl_head as (A & _). congruence.
+      - rewrite upd_other in Hx |- * by exact Hne. apply (qK s HI x Hx).
     Qed.
 
-    (** a task the updated tree shows failed is recorded failed *)
-    Lemma dl_failed x : In x tasks -> k' x = SFailed -> store s x = SFailed.
+    (** a task the updated tree shows failed / blocked is recorded so *)
+    Lemma dl_failed x v : In x tasks -> v = SFailed \/ v = SBlocked -> k' x = v -> store s x = v.
     Proof.
-      unfold k'. intros Hin Hx. destruct (Z.eq_dec x t0) as [->|Hne].
+      unfold k'. intros Hin Hv Hx. destruct (Z.eq_dec x t0) as [->|Hne].
       - rewrite upd_same in Hx. destruct dl_head as (A & _). congruence.
       - rewrite upd_other in Hx by exact Hne. destruct dl_tree as (Htree & _).
         destruct (q7 s HI Htree x Hin) as [H|[H|[H|[H|H]]]].
         + congruence.
-        + exfalso. destruct (q6 s HI x (or_introl H)) as (_ & _ & C). rewrite Hx in C. discriminate.
-        + exfalso. destruct (q6 s HI x (or_intror (or_introl H))) as (_ & _ & C). rewrite Hx in C. discriminate.
-        + destruct H; congruence.
+        + exfalso. destruct (q6 s HI x (or_introl H)) as (_ & _ & C). rewrite Hx in C. destruct Hv; subst v; discriminate.
+        + exfalso. destruct (q6 s HI x (or_intror (or_introl H))) as (_ & _ & C). rewrite Hx in C. destruct Hv; subst v; discriminate.
+        + destruct H as (H & _). destruct Hv; congruence.
         + destruct H as (_ & H). exfalso. apply H. exact dl_ph.
     Qed.
 
     (** no push and a verdict: the tree is dropped, the instance settled *)
-    Lemma invq_deliver_settle v :
-      verdict_of tasks deps k' = v -> v <> VRunning -> InvQ (set_tree (set_ins s1 (ist_of v)) false).
+    Lemma invq_deliver_settle pb v :
+      verdict_of tasks deps pb k' = v -> v <> VRunning -> InvQ (set_tree (set_ins s1 (ist_of v)) false).
     Proof.
       intros Hv Hnr.
       assert (Hnone : forall x, ~ (runs s x <> RNone \/ (exists st', In (x, st') r) \/ inpend s x)).
       { intros x H. destruct (dl_inflight x H) as (_ & A & B & C & _). apply Hnr. rewrite <- Hv. apply verdict_running.
         exists x. repeat split; try assumption. apply exec_active. exact C. }
       assert (Hr : r = []). { destruct r as [|(x, st') r']; [reflexivity|]. exfalso. apply (Hnone x). right. left. exists st'. left. reflexivity. }
-      assert (Hp : pend s = []). { destruct (pend s) as [|(x, sn) p'] eqn:E; [reflexivity|]. exfalso. apply (Hnone x). right. right. exists sn. rewrite E. left. reflexivity. }
+      assert (Hp : dl s = []). { destruct (dl s) as [|(x, sn) p'] eqn:E; [reflexivity|]. exfalso. apply (Hnone x). right. right. exists sn. rewrite E. left. reflexivity. }
       assert (Hrn : forall x, runs s x = RNone). { intros x. destruct (runs s x) eqn:E; [reflexivity| | | | |]; exfalso; apply (Hnone x); left; congruence. }
       pose proof dl_ph as Hph.
       constructor; cbn; try (intros; discriminate).
-      - rewrite Hp. intros c sn [].
+      - unfold dl in Hp |- *. cbn. rewrite Hp. intros c sn [].
       - apply (q2 s HI).
       - rewrite Hr. intros x st' [].
       - rewrite Hr. constructor.
       - intros x. rewrite Hrn. exact Logic.I.
-      - intros x [H|[(st' & H)|(sn & H)]]; exfalso; [apply H; apply Hrn|cbn in H; rewrite Hr in H; exact H|cbn in H; rewrite Hp in H; exact H].
+      - intros x [H|[(st' & H)|(sn & H)]]; exfalso; [apply H; apply Hrn|cbn in H; rewrite Hr in H; exact H|].
+        unfold dl in Hp, H. cbn in H. rewrite Hp in H. exact H.
       - intros H. congruence.
       - intros H. congruence.
       - intros H. congruence.
       - intros [H|H]; congruence.
       - intros _ _ Hi. destruct v; cbn in Hi; congruence.
-      - exact dl_K.
+      - intros x Hx. apply (dl_K x Hx).
       - apply (qF s HI).
-      - intros Hi x Hx. destruct v; cbn in Hi; try discriminate. apply dl_K. apply (verdict_success k' Hv x Hx).
-      - intros Hi _. destruct v; cbn in Hi; try discriminate. destruct (verdict_failed k' Hv) as (x & A & B & C).
-        exists x. split; [exact A|]. apply dl_failed; assumption.
+      - intros Hi x Hx. destruct v; cbn in Hi; try discriminate. pose proof (verdict_success pb k' Hv x Hx) as Hd.
+        rewrite (dl_K x Hd). exact Hd.
+      - intros Hi _. destruct v; cbn in Hi; try discriminate. destruct (verdict_failed pb k' Hv) as (x & A & B & C).
+        exists x. split; [exact A|]. apply (dl_failed x SFailed); auto.
+      - intros Hi _. destruct v; cbn in Hi; try discriminate. destruct (verdict_blocked pb k' Hv) as (x & A & B & C).
+        exists x. split; [exact A|]. apply (dl_failed x SBlocked); auto.
       - intros H. congruence.
     Qed.
 
@@ -753,7 +922,7 @@ Section Settle.
     Lemma invq_deliver_push N :
       N = (if done st then filter (pushable deps k') (children tasks deps t0) else if est_eqb st SInit then [t0] else []) ->
       (exists t, In t tasks /\ pdone k' t = true /\ active (k' t) = true) ->
-      InvQ (set_pend s1 (pend s ++ snap (store s) N)).
+      InvQ (set_pushq s1 (pushq s ++ snap (store s) N)).
     Proof.
       intros HN Hwit.
       destruct dl_head as (H0st & H0r & H0ev & H0in).
@@ -792,16 +961,23 @@ Section Settle.
           + congruence.
           + exact dl_r_not0.
           + intros (sn & H). exact (dl_pend_not0 sn H). }
+      assert (Hperm : Permutation ((pushq s ++ snap (store s) N) ++ pend s) (dl s ++ snap (store s) N)).
+      { unfold dl. rewrite <- !app_assoc. apply Permutation_app_head. apply Permutation_app_comm. }
+      assert (Hiff : forall x, In x ((pushq s ++ snap (store s) N) ++ pend s) <-> In x (dl s) \/ In x (snap (store s) N)).
+      { intros x. split.
+        - intros H. apply (Permutation_in _ Hperm) in H. apply in_app_or in H. exact H.
+        - intros H. apply (Permutation_in _ (Permutation_sym Hperm)). apply in_or_app. exact H. }
       assert (HNnd : NoDup N).
       { subst N. destruct (done st); [apply NoDup_filter; unfold children; apply NoDup_filter; exact Hnd|].
         destruct (est_eqb st SInit); [constructor; [intros []|constructor]|constructor]. }
-      constructor; cbn.
-      - intros c sn Hc. apply in_app_or in Hc. destruct Hc as [Hc|Hc].
+      constructor; cbn; unfold dl; cbn.
+      - intros c sn Hc. apply Hiff in Hc. destruct Hc as [Hc|Hc].
         + destruct (q1 s HI c sn Hc) as (A & B & C & D & E). repeat split; try assumption.
           intros (st' & Hx). cbn in Hx. apply D. exists st'. rewrite Heq. right. exact Hx.
         + apply in_snap in Hc. destruct Hc as (Hc & ->). destruct (HNspec c Hc) as (A & B & C & D & E & F & G).
           repeat split; try assumption; [rewrite <- D; exact C|]. intros (st' & Hx). cbn in Hx. exact (F st' Hx).
-      - rewrite map_app, map_fst_snap. apply NoDup_app_disj; [apply (q2 s HI)|exact HNnd|].
+      - apply (nodup_fst_perm _ _ (Permutation_sym Hperm)).
+        rewrite map_app, map_fst_snap. apply NoDup_app_disj; [apply (q2 s HI)|exact HNnd|].
         intros c Hc1 Hc2. destruct (HNspec c Hc2) as (_ & _ & _ & _ & _ & _ & G). apply G.
         apply in_map_iff in Hc1. destruct Hc1 as ((c', sn) & Hf & Hin). cbn in Hf. subst c'. exists sn. exact Hin.
       - intros x st' Hx. destruct (q3 s HI x st') as (A & B & C & D); [rewrite Heq; right; exact Hx|]. repeat split; assumption.
@@ -810,7 +986,7 @@ Section Settle.
       - intros x Hx.
         assert (Hcase : (runs s x <> RNone \/ (exists st', In (x, st') r) \/ inpend s x) \/ In x N).
         { destruct Hx as [H|[(st' & H)|(sn & H)]]; [left; left; exact H|left; right; left; exists st'; exact H|].
-          cbn in H. apply in_app_or in H. destruct H as [H|H]; [left; right; right; exists sn; exact H|].
+          unfold dl in H. cbn in H. apply Hiff in H. destruct H as [H|H]; [left; right; right; exists sn; exact H|].
           apply in_snap in H. right. apply H. }
         destruct Hcase as [H|H].
         + destruct (dl_inflight x H) as (_ & _ & B & C & _). repeat split; assumption.
@@ -819,12 +995,12 @@ Section Settle.
         + left. unfold k'. rewrite upd_same. congruence.
         + unfold k'. rewrite upd_other by exact Hne. destruct (q7 s HI Htree x Hx) as [H|[H|[H|[H|H]]]]; auto.
           right. right. left. apply dl_evfor_r in H; [|exact Hne]. destruct H as (st' & H). exists st'. exact H.
-      - intros _ x Hx A B C D E. apply in_or_app.
+      - intros _ x Hx A B C D E. apply Hiff.
         destruct (in_dec Z.eq_dec x N) as [HxN|HxN]; [right; apply in_snap; split; [exact HxN|reflexivity]|]. left.
         destruct (Z.eq_dec x t0) as [->|Hne].
         + (* t0 itself: executable again only as init, and then it is pushed *)
           exfalso. apply HxN. subst N. assert (Hk0 : k' t0 = st) by (unfold k'; apply upd_same). rewrite Hk0 in B.
-          destruct H0ev as [E1|[E1|E1]]; rewrite E1 in B |- *; cbn in B; try discriminate. cbn. left. reflexivity.
+          unfold ev_st in H0ev. destruct H0ev as [E1|[E1|[E1|[E1|E1]]]]; rewrite E1 in B |- *; cbn in B; try discriminate. cbn. left. reflexivity.
         + assert (Hkx : k' x = know s x) by (unfold k'; apply upd_other; exact Hne).
           rewrite Hkx in B, C.
           assert (E' : ~ evfor s x). { intros H. apply E. apply dl_evfor_r in H; [|exact Hne]. destruct H as (st' & H). exists st'. exact H. }
@@ -840,19 +1016,31 @@ Section Settle.
       - intros [H|H]; congruence.
       - intros H. congruence.
       - intros _ _ x Hx A B. destruct (Z.eq_dec x t0) as [->|Hne].
-        + unfold k' in A. rewrite upd_same in A. destruct H0ev as [H|[H|H]]; congruence.
+        + unfold k' in A. rewrite upd_same in A. unfold ev_st in H0ev. destruct H0ev as [H|[H|[H|[H|H]]]]; congruence.
         + unfold k' in A. rewrite upd_other in A by exact Hne. apply (q12 s HI Htree Hph x Hx A B).
-      - exact dl_K.
+      - intros x Hx. apply (dl_K x Hx).
       - apply (qF s HI).
       - apply (g1 s HI).
       - apply (g2 s HI).
+      - apply (g2b s HI).
       - apply (g3 s HI).
     Qed.
   End Deliver.
 
+
+  Lemma invq_arm_started s f : InvQ (set_armed s true) -> InvQ (set_armed (set_started s f) true).
+  Proof.
+    intros H. constructor.
+    - exact (q1 _ H). - exact (q2 _ H). - exact (q3 _ H). - exact (q4 _ H). - exact (q5 _ H). - exact (q6 _ H).
+    - exact (q7 _ H). - exact (q8 _ H). - exact (q9 _ H). - exact (q10 _ H). - exact (q10b _ H). - exact (q10c _ H).
+    - exact (q10d _ H). - exact (q11 _ H). - exact (q12 _ H). - exact (qK _ H). - exact (qF _ H). - exact (g1 _ H).
+    - exact (g2 _ H). - exact (g2b _ H). - exact (g3 _ H).
+  Qed.
+
   Lemma guard_of_q1 s t sn : InvQ s -> In (t, sn) (pend s) -> guard_ok validate s t sn = true.
   Proof.
-    intros HI Hin. destruct (q1 s HI t sn Hin) as (A & B & C & _). unfold guard_ok. rewrite C, B. cbn.
+    intros HI Hin. assert (Hin' : In (t, sn) (dl s)) by (unfold dl; apply in_or_app; right; exact Hin).
+    destruct (q1 s HI t sn Hin') as (A & B & C & _). unfold guard_ok. rewrite C, B. cbn.
     subst sn. destruct validate; cbn; [|reflexivity]. apply est_eqb_eq. reflexivity.
   Qed.
 
@@ -872,6 +1060,7 @@ Section Settle.
       + apply invq_write; [exact HI|rewrite Er; exact Logic.I|discriminate|reflexivity].
       + apply invq_setruns; [exact HI|congruence|discriminate|apply H5].
       + unfold end_run. apply invq_write; [exact HI|rewrite Er; exact Logic.I|discriminate|auto].
+      + apply invq_write; [exact HI|rewrite Er; exact Logic.I|discriminate|reflexivity].
     - (* MainStart *)
       pose proof (q5 s HI t) as H5.
       destruct (runs s t) eqn:Er; try discriminate. inv HS.
@@ -889,8 +1078,8 @@ Section Settle.
       destruct (runs s t) eqn:Er; try discriminate. inv HS.
       unfold end_run. apply invq_write; [exact HI|rewrite Er; exact Logic.I|discriminate|auto].
     - (* BeforeErr *)
-      destruct (runs s t) as [|sn| | | |ev] eqn:Er; try discriminate. destruct sn; try discriminate. inv HS.
-      unfold end_run. apply invq_write; [exact HI|rewrite Er; exact Logic.I|discriminate|auto].
+      destruct (runs s t) as [|sn| | | |ev] eqn:Er; try discriminate. destruct sn; try discriminate; inv HS;
+        (unfold end_run; apply invq_write; [exact HI|rewrite Er; exact Logic.I|discriminate|auto]).
     - (* RetryErr *)
       destruct (runs s t) as [|sn| | | |ev] eqn:Er; try discriminate. destruct sn; try discriminate. inv HS.
       unfold end_run. apply invq_write; [exact HI|rewrite Er; exact Logic.I|discriminate|auto].
@@ -901,12 +1090,13 @@ Section Settle.
       destruct (dl_tree s t0 st r HI Eq) as (Htree & Hpd & _). rewrite Htree, Hpd in HS. cbn in HS.
       match type of HS with (match ?nx with _ => _ end) = _ => remember nx as N eqn:EN end.
       destruct N as [|n0 N'].
-      + destruct (verdict_of tasks deps (upd (know s) t0 st)) eqn:EV; inv HS.
-        * apply invq_eta_pend. cbn.
+      + destruct (verdict_of tasks deps pb (upd (know s) t0 st)) eqn:EV; inv HS.
+        * apply invq_eta_pushq. cbn.
           pose proof (invq_deliver_push s t0 st r HI Eq [] EN) as H. cbn in H. rewrite app_nil_r in H. apply H.
-          apply verdict_running. exact EV.
-        * apply (invq_deliver_settle s t0 st r HI Eq VSuccess EV). discriminate.
-        * apply (invq_deliver_settle s t0 st r HI Eq VFailed EV). discriminate.
+          apply (verdict_running pb). exact EV.
+        * apply (invq_deliver_settle s t0 st r HI Eq pb VSuccess EV). discriminate.
+        * apply (invq_deliver_settle s t0 st r HI Eq pb VFailed EV). discriminate.
+        * apply (invq_deliver_settle s t0 st r HI Eq pb VBlocked EV). discriminate.
       + inv HS. apply (invq_deliver_push s t0 st r HI Eq (n0 :: N') EN).
         assert (Hn0 : In n0 (n0 :: N')) by (left; reflexivity). rewrite EN in Hn0.
         destruct (dl_head s t0 st r HI Eq) as (_ & _ & _ & Hin0).
@@ -915,6 +1105,16 @@ Section Settle.
           unfold pushable in Hpu. apply andb_true_iff in Hpu. exists n0. repeat split; [apply Hch|apply Hpu|apply exec_active; apply Hpu].
         * destruct (est_eqb st SInit) eqn:Ei; [|destruct Hn0]. apply est_eqb_eq in Ei. destruct Hn0 as [<-|[]].
           exists t0. rewrite upd_same. subst st. repeat split; [exact Hin0|apply pdone_upd_notdone; [apply (dl_notdone s t0 SInit r HI Eq)|exact Hpd]].
+    - (* PushRun *)
+      destruct (remove1 (t, s0) (pushq s)) as [q'|] eqn:Er; [|discriminate]. inv HS. apply invq_pushrun; assumption.
+    - (* PushSkip *)
+      destruct (remove1 (t, s0) (pushq s)) as [q'|] eqn:Er; [|discriminate].
+      match type of HS with (if ?b then _ else _) = _ => destruct b; [|discriminate] end. inv HS.
+      eapply invq_push_verdict; [exact HI|exact Er|left; reflexivity].
+    - (* PushBlock *)
+      destruct (remove1 (t, s0) (pushq s)) as [q'|] eqn:Er; [|discriminate].
+      match type of HS with (if ?b then _ else _) = _ => destruct b; [|discriminate] end. inv HS.
+      eapply invq_push_verdict; [exact HI|exact Er|right; reflexivity].
     - (* CmdIssue *)
       match type of HS with (if ?b then _ else _) = _ => destruct b; [|discriminate] end. inv HS. apply invq_cmdissue. exact HI.
     - (* CmdBegin *)
@@ -924,7 +1124,12 @@ Section Settle.
     - (* Rearm *)
       destruct (ph s) eqn:Ep; try discriminate. destruct (store s t) eqn:Est; try discriminate.
       destruct (existsb (Z.eqb t) tasks) eqn:Ex; [|discriminate]. inv HS.
-      apply invq_rearm; try assumption.
+      apply invq_arm_started. apply invq_arm; try assumption; [left; split; [exact Est|reflexivity]|].
+      apply existsb_exists in Ex. destruct Ex as (x & Hx & Hxe). apply Z.eqb_eq in Hxe. subst x. exact Hx.
+    - (* ContArm *)
+      destruct (ph s) eqn:Ep; try discriminate. destruct (store s t) eqn:Est; try discriminate.
+      destruct (existsb (Z.eqb t) tasks) eqn:Ex; [|discriminate]. inv HS.
+      apply invq_arm; try assumption; [right; split; [exact Est|reflexivity]|].
       apply existsb_exists in Ex. destruct Ex as (x & Hx & Hxe). apply Z.eqb_eq in Hxe. subst x. exact Hx.
     - (* CmdPatch *)
       destruct (ph s) eqn:Ep; try discriminate. destruct (armed s) eqn:Ea; [|discriminate]. inv HS.
@@ -958,8 +1163,9 @@ Section Settle.
   Theorem settled s :
     InvQ s -> Quiescent s ->
     ins s <> IRunning /\
-    (ins s = ISuccess <-> forall t, In t tasks -> store s t = SSuccess) /\
-    (ins s = IFailed -> exists t, In t tasks /\ store s t = SFailed).
+    (ins s = ISuccess <-> forall t, In t tasks -> done (store s t) = true) /\
+    (ins s = IFailed -> exists t, In t tasks /\ store s t = SFailed) /\
+    (ins s = IBlocked -> exists t, In t tasks /\ store s t = SBlocked).
   Proof.
     intros HI (Hq & Hp & Hc & Hnr). destruct (quiet_all s HI Hq) as (Qe & Qp & Qr).
     assert (Hset : ins s <> IRunning).
@@ -975,10 +1181,12 @@ Section Settle.
         + destruct H as (H1 & H2). pose proof (q12 s HI Et Hp t A H1 H2). congruence.
         + destruct H as (_ & H). apply H. exact Hp.
       - destruct (q11 s HI Et Hp Hi) as (t & A & B & _). exact (Hnr t A B). }
-    split; [exact Hset|]. split.
-    - split; [apply (g1 s HI)|]. intros Hall. destruct (ins s) eqn:Ei; [congruence|reflexivity|].
-      destruct (g2 s HI Ei Hc) as (t & A & B). rewrite (Hall t A) in B. discriminate.
+    split; [exact Hset|]. split; [|split].
+    - split; [apply (g1 s HI)|]. intros Hall. destruct (ins s) eqn:Ei; [congruence|reflexivity| |].
+      + destruct (g2 s HI Ei Hc) as (t & A & B). specialize (Hall t A). rewrite B in Hall. discriminate.
+      + destruct (g2b s HI Ei Hc) as (t & A & B). specialize (Hall t A). rewrite B in Hall. discriminate.
     - intros Hi. apply (g2 s HI Hi Hc).
+    - intros Hi. apply (g2b s HI Hi Hc).
   Qed.
 
   (** and a task that is recorded running with no run can always be failed by the watchdog, which settles the instance *)
@@ -987,5 +1195,21 @@ Section Settle.
     exists s', stepq s (WdFail t) = Some s' /\ ins s' = IFailed /\ store s' t = SFailed.
   Proof.
     intros HI Hst Hr. eexists. cbn. rewrite Hst, Hr. split; [reflexivity|]. cbn. split; [reflexivity|apply upd_same].
+  Qed.
+
+  (** C13 at engine level, for the histories of the settle theorem: a task recorded skipped or blocked holds no
+      token - no delivery of it is under way, no run of it is registered - and no completion event of it is
+      queued other than the one that announces that verdict *)
+  Theorem verdict_task_has_no_run s t :
+    InvQ s -> store s t = SSkipped \/ store s t = SBlocked -> runs s t = RNone /\ ~ inpend s t.
+  Proof.
+    intros HI Hst. split.
+    - pose proof (q5 s HI t) as H. destruct (runs s t) as [|sn| | | |ev]; [reflexivity| | | | |]; exfalso.
+      + destruct H as (H1 & H2 & _). subst sn. destruct Hst as [E|E]; rewrite E in H2; discriminate.
+      + destruct H as (H1 & _). destruct Hst; congruence.
+      + destruct H as (H1 & _). destruct Hst; congruence.
+      + destruct H as (H1 & _). destruct Hst; congruence.
+      + destruct H as (H1 & [H2|[H2|H2]] & _); subst ev; destruct Hst; congruence.
+    - intros (sn & Hin). destruct (q1 s HI t sn Hin) as (A & B & _). subst sn. destruct Hst as [E|E]; rewrite E in B; discriminate.
   Qed.
 End Settle.
